@@ -277,7 +277,11 @@ def run(tier: str, seed: int) -> int:
             if nviol <= 8:
                 R.violation(f"bounded check on real code: {f['clause']}: {f['detail'][:200]}", {"failure": f}, True)
     R.level = "proof" if not R.undecided else "other"
+    from . import engine_diff
+
+    diff_summary = engine_diff.report(R, engine_diff.methods_diff(), "evaluate / clone / traversals / rotate / term functions on concrete trees")
     R.coverage = {
+        "engine_differential": diff_summary,
         "obligations": n_obl,
         "discharged": n_ok,
         "checker_cmd": f"/verif/bin/check C13 --tier {tier}",
